@@ -44,7 +44,10 @@ RULE = ("two generators. (1) general: entry sequences of length 0-14 over <= 3 b
         "to 2^70; an id equal to the hash of the REPAIRED list's manifest (check()'s 'raw manifest not needed' "
         "clause). About one base name in ten is a string / bytes constant harvested from the source of the repository "
         "under test (gitobj_common.source_tokens) or has one spliced in ('/' removed), on the clash paths too. "
-        "Call shapes (field `shape`, invisible to the model): id / raw_manifest omitted when default vs "
+        "UTF-8 names whose Unicode normal forms "
+        "differ (gitobj_common.NFC_UNSTABLE; alone, spliced, x20) occur as ordinary and as repeated names together "
+        "with their NFC/NFD/NFKC/NFKD twins (once, repeated, or bearing the would-be replacement name): names are "
+        "bytes, twins are different names. Call shapes (field `shape`, invisible to the model): id / raw_manifest omitted when default vs "
         "passed explicitly, entries as a tuple subclass, equal entries as ONE shared DirectoryEntry object vs "
         "distinct equal objects, perms given as DentryPerms / str / float / bool, targets of a bytes subclass. "
         "Sequences: every sixth case first repairs the same entries with OTHER id / raw_manifest (field `prime`), "
@@ -181,7 +184,44 @@ def is_token_name(name):
         return False
 
 
+def _nf(name, form):
+    """the Unicode normal form of a name read as UTF-8 (None when it is not UTF-8)"""
+    import unicodedata
+    try:
+        return unicodedata.normalize(form, name.decode("utf-8")).encode("utf-8")
+    except UnicodeDecodeError:
+        return None
+
+
+def nfc_twins(name):
+    """the OTHER byte strings that are the same text after Unicode normalisation (NFC / NFD / NFKC / NFKD)"""
+    return sorted({t for t in (_nf(name, f) for f in ("NFC", "NFD", "NFKC", "NFKD")) if t is not None and t != name and b"/" not in t})
+
+
+def nfc_name(rng):
+    """UTF-8 text whose normal forms differ (decomposed accents, ANGSTROM / OHM SIGN, compatibility ideographs, jamo,
+    ligatures ...), alone or spliced into a usual name.  Entry names are BYTES: such a name and its NFC twin are two
+    different names."""
+    try:
+        from .gitobj_common import nfc_unstable_bytes
+        u = nfc_unstable_bytes(rng)
+    except Exception:
+        def nfc_unstable_bytes(_rng):
+            return "e\u0301".encode("utf-8")
+        u = nfc_unstable_bytes(rng)
+    r = rng.random()
+    if r < 0.5:
+        return u
+    if r < 0.65:
+        return rng.choice([b"a", b"dir_", b"%", b"x."]) + u
+    if r < 0.8:
+        return u + rng.choice([b"a", b"_", b"_1", b".txt", b"%d"])
+    return u + rng.choice([b"", b"-", b"_"]) + nfc_unstable_bytes(rng) if r < 0.95 else u * 20
+
+
 def special_name(rng):
+    if rng.random() < 0.08:
+        return nfc_name(rng)
     r = rng.random()
     if r < 0.5:
         return rng.choice(SPECIAL)
@@ -264,10 +304,27 @@ def _clash_group(rng, nm, tg, mult, blockers):
 def gen_clash_case(rng):
     """names from the special alphabet on the paths where the first-choice name is taken and numbered names are probed"""
     nm = _tok(rng, special_name(rng) if rng.random() < 0.9 else rng.choice([b"a", b"ab", b""]))
+    if rng.random() < 0.07:
+        nm = nfc_name(rng)
     tg = bytes(rng.randrange(256) for _ in range(20)) if rng.random() < 0.85 else bytes(rng.randrange(256) for _ in range(rng.choice([0, 1, 4, 5])))
     mult = rng.choice([2, 3, 3, 4, 4, 5])
     blockers = rng.choice([0, 0, 1, 1, 2, 3, 5])
     es = _clash_group(rng, nm, tg, mult, blockers)
+    tw = nfc_twins(nm)
+    if tw and rng.random() < 0.85:
+        # the normal-form twins of the name are OTHER names: present once (must keep their name and not be counted as
+        # repetitions), or repeated themselves (their own group), or bearing the would-be replacement names
+        for t2 in rng.sample(tw, rng.choice([1, len(tw)])):
+            k = rng.random()
+            if k < 0.45:
+                ty = rng.choice(TYPES)
+                es.append((t2, ty, rng.choice([tg, bytes(rng.randrange(256) for _ in range(20))]), PERMS[ty]))
+            elif k < 0.75:
+                es += _clash_group(rng, t2, tg, rng.choice([2, 3]), rng.choice([0, 1]))
+            else:
+                ty = rng.choice(TYPES)
+                es.append((base_name(t2, tg), ty, tg, PERMS[ty]))
+                es.append((t2, "rev", tg, PERMS["rev"]))
     r = rng.random()
     if r < 0.3:
         # a second duplicated name, derived from the candidates of the first one
@@ -310,6 +367,9 @@ def _target(rng, pool):
 def gen_case(rng):
     plain = [b"a", b"b", b"ab", b"a_", b"a_1", b"", b"a.b", b"\xff", b"a\x00", b"0"]
     pool_names = plain if rng.random() < 0.6 else plain + [special_name(rng) for _ in range(6)]
+    if rng.random() < 0.08:
+        u = nfc_name(rng)
+        pool_names = [u] * 3 + nfc_twins(u) * 2 + plain[:3]            # a name and its normal-form twins side by side
     bases = list(dict.fromkeys(_tok(rng, b) for b in rng.sample(pool_names, rng.choice([1, 1, 2, 2, 3]))))
     n = rng.choice([0, 1, 2, 2, 3, 3, 3, 4, 4, 5, 6, 8, 10, 12])
     mult = {b: 0 for b in bases}
@@ -515,6 +575,17 @@ def classify(c):
         ks.append("raw-given")
         if c["raw"] == "":
             ks.append("raw-empty-bytes")
+    un = {n for n in set(ns) if nfc_twins(n)}
+    if un:
+        ks.append("nfc-unstable-name")
+        if any(ns.count(n) > 1 for n in un):
+            ks.append("nfc-unstable-name-repeated")
+        if any(k >= 1 and n in un for n, k in attempt_depths(es)):
+            ks.append("nfc-unstable-name:attempt>=1")
+        if any(t in set(ns) for n in un for t in nfc_twins(n)):
+            ks.append("name-and-its-normal-form-twin")
+            if any(ns.count(n) > 1 and any(t in set(ns) for t in nfc_twins(n)) for n in un):
+                ks.append("repeated-name-and-its-normal-form-twin")
     tn = {n for n in set(ns) if is_token_name(n)}
     if tn:
         ks.append("source-token-in-name")
